@@ -210,3 +210,11 @@ def c16(F, R, tier):
 def c03(F, R, tier):
     import c03 as mod
     mod.check(F, R)
+
+
+@prop("C14",
+      technique="static: loop-bound rule and state write-set/ordering rule on typed HIR; tolerance predicates evaluated from their HIR over value pairs around the tolerance",
+      explanation="THIN CLAIM (termination and state discipline). Decides (L) both solve loops are `while iteration < limit` and every arm of the step match either increments the counter or returns, leaving by the limit reports IterationLimitReached; (T-PRED) the six float predicates, evaluated from their HIR on 169 value pairs around the 1e-5 tolerance, satisfy: exactly one of lt/eq/gt, le = lt|eq, ge = gt|eq, ne = !eq, lt(a,b) = gt(b,a); (W-STATE) pivot writes all five state components with the documented formulas, eliminates with factors a[i][h]/pivot and c[h]/pivot, skips the pivot row, and normalises the pivot row only after all other updates; optimality test (all costs float_ge 0) and entering rule (costs float_lt 0, non-basic) are complementary; Bland's rule is enabled by the stall counter and picks the smallest index; the ratio test runs over positive entries with smallest-basis-index tie break; a step tests optimality first. NOT decided: that the equation system stays equivalent, the basis stays feasible, the objective is monotone, optimal/unbounded reports are genuine -- numeric invariants of the tableau. This property is essentially dynamic.")
+def c14(F, R, tier):
+    import c14 as mod
+    mod.check(F, R)
